@@ -926,7 +926,10 @@ Definition step_call (c : cfg) (f : value) (args : list value) (lua : bool) (k :
   | VBuiltin b => call_builtin c b args lua k
   | _ =>
       match metamethod (sto c) f ((lit "__call")) with
-      | VNil => rterr c (lit "call") k
+      | VNil =>
+          (* a call made by a library function (pcall(nil), xpcall(42, h)) has no Lua position *)
+          if lua then rterr c (lit "call") k
+          else go c (CRaise (VStr (lit "?:#call"))) k
       | h => go c (CCall h (f :: args) lua) k
       end
   end.
